@@ -3,6 +3,7 @@
 //!   statics-race <threads> <variant>
 //!   shared-table <threads>
 //!   shared-params <threads> <bits>
+//!   shared-verify <threads> <bits> <proof hex> <commitment hex> [accept|reject]
 //!
 //! Output: one line `SIG <thread.checkpoint,...>` (schedule signature: order in which threads
 //! passed harness-level checkpoints, taken with a Relaxed ticket counter that adds no
@@ -232,6 +233,63 @@ fn shared_params(threads: usize, bits: usize) -> Result<(), String> {
     Ok(())
 }
 
+fn unhex(s: &str) -> Vec<u8> {
+    (0..s.len() / 2).map(|i| u8::from_str_radix(&s[2 * i..2 * i + 2], 16).unwrap_or(0)).collect()
+}
+
+/// Threads share one parameter object and concurrently decode and verify the SAME proof (made
+/// natively by the driver and handed over in argv), racing first use of the statics as well.
+fn shared_verify(threads: usize, bits: usize, proof_hex: &str, commitment_hex: &str, expect_ok: bool) -> Result<(), String> {
+    let log = Arc::new(Mutex::new(Vec::new()));
+    let proof_bytes = Arc::new(unhex(proof_hex));
+    let cb = unhex(commitment_hex);
+    if cb.len() != 32 {
+        return Err("commitment must be 32 bytes".into());
+    }
+    let mut c = [0u8; 32];
+    c.copy_from_slice(&cb);
+    let commitment = CompressedRistretto(c).decompress().ok_or("commitment does not decode")?;
+    let barrier = Arc::new(Barrier::new(threads));
+    let shared: Arc<Mutex<Option<RangeParameters<RistrettoPoint>>>> = Arc::new(Mutex::new(None));
+    let mut handles = Vec::new();
+    for t in 0..threads {
+        let log = log.clone();
+        let barrier = barrier.clone();
+        let shared = shared.clone();
+        let proof_bytes = proof_bytes.clone();
+        handles.push(thread::spawn(move || -> Result<bool, String> {
+            barrier.wait();
+            checkpoint(&log, t, 0);
+            let pc = create_pedersen_gens_with_extension_degree(ExtensionDegree::DefaultPedersen);
+            let params = {
+                let mut g = shared.lock().unwrap();
+                if g.is_none() {
+                    *g = Some(RangeParameters::init(bits, 1, pc).map_err(|e| format!("{:?}", e))?);
+                }
+                g.as_ref().unwrap().clone()
+            };
+            checkpoint(&log, t, 1);
+            let st = RangeStatement::init(params, vec![commitment], vec![None], None).map_err(|e| format!("{:?}", e))?;
+            let proof = RangeProof::<RistrettoPoint>::from_bytes(&proof_bytes).map_err(|e| format!("{:?}", e))?;
+            checkpoint(&log, t, 2);
+            let ok = RangeProof::verify_batch(&mut [Transcript::new(b"miri-sched")], &[st], &[proof], VerifyAction::VerifyOnly).is_ok();
+            checkpoint(&log, t, 3);
+            Ok(ok)
+        }));
+    }
+    let mut results = Vec::new();
+    for h in handles {
+        results.push(h.join().map_err(|_| "a thread panicked".to_string())??);
+    }
+    println!("SIG {}", signature(&log));
+    for (t, ok) in results.iter().enumerate() {
+        if *ok != expect_ok {
+            return Err(format!("thread {}: concurrent verification returned {} where the single-threaded verdict is {}", t, ok, expect_ok));
+        }
+    }
+    Ok(())
+}
+
 fn main() {
     let args: Vec<String> = std::env::args().skip(1).collect();
     let num = |i: usize, d: usize| args.get(i).and_then(|s| s.parse().ok()).unwrap_or(d);
@@ -239,6 +297,13 @@ fn main() {
         Some("statics-race") => statics_race(num(1, 3), num(2, 0)),
         Some("shared-table") => shared_table(num(1, 2)),
         Some("shared-params") => shared_params(num(1, 2), num(2, 1)),
+        Some("shared-verify") => shared_verify(
+            num(1, 2),
+            num(2, 2),
+            args.get(3).map(|s| s.as_str()).unwrap_or(""),
+            args.get(4).map(|s| s.as_str()).unwrap_or(""),
+            args.get(5).map(|s| s != "reject").unwrap_or(true),
+        ),
         _ => Err("usage: miri-sched <statics-race|shared-table|shared-params> ...".to_string()),
     };
     match r {
